@@ -70,6 +70,14 @@ MC = {
     "reader_faults_3": {"module": "MC_Reader", "workers": 2, "cfg": lambda tier: reader_cfg(3, 2 if tier == "thorough" else 1, "io")},
     # the same schedules through the embedded-hal 0.2 serial source (no end of input, no Interrupted)
     "reader_faults_eh": {"module": "MC_Reader", "workers": 2, "cfg": lambda tier: reader_cfg(1, 2 if tier == "thorough" else 1, "eh")},
+    "grammar": {"module": "MC_Grammar", "workers": 8,
+                "cfg": lambda tier: grammar_cfg(mall="TRUE" if tier == "thorough" else "FALSE")},
+    "neg_pending_keep": {"module": "MC_Grammar", "workers": 8, "expect": "Terminates", "cfg": grammar_cfg(poe="keep", invs=("Terminates",))},
+    "neg_pending_32": {"module": "MC_Grammar", "workers": 8, "expect": "NoCountdownOverflow", "cfg": grammar_cfg(pw=32, invs=("NoCountdownOverflow",))},
+    "tlf_exact": {"module": "MC_Tlf", "workers": 8,
+                  "cfg": lambda tier: tlf_cfg("mul", "AllBytes", "AllBytes", 3) if tier == "thorough" else tlf_cfg("mul", "AllBytes", "SomeNext", 4)},
+    "tlf_long": {"module": "MC_Tlf", "workers": 8, "cfg": tlf_cfg("mul", "SomeFirst", "FewNext", 12)},
+    "neg_tlf_shl": {"module": "MC_Tlf", "workers": 8, "expect": "Exact", "cfg": tlf_cfg("shl", "SomeFirst", "FewNext", 12)},
     "encoders": {"module": "MC_Encoder",
                  "cfg": lambda tier: "SPECIFICATION Spec\nCONSTANTS\n  PayBytes = {27, 0, 85}\n  PayLen = %d\n  ExtraCalls = 3\n"
                                      "INVARIANT NoPanicArm\nINVARIANT IterPrefix\nINVARIANT IterComplete\nINVARIANT Fused\nINVARIANT PadCounter\n"
